@@ -462,21 +462,26 @@ func (f *Frame) ifaceEq(x *ssa.BinOp, a, b T) T {
 	return Eq(a, b)
 }
 
-// uncomparableTag: the dynamic type is a slice, map or func type (or unknown "other" type flagged so).
+// uncomparableTag: the dynamic type is a slice, map or func type.
 func (f *Frame) uncomparableTag(tg T) T {
-	fn := f.enc.declFun("uncomparable", []Sort{SInt}, SBool)
-	res := App(SBool, fn, tg)
-	for i, t := range f.p.tagTypes {
-		var v string
+	return App(SBool, "uncomparable", tg)
+}
+
+func (p *Program) tagKindAsserts() string {
+	var b strings.Builder
+	for i, t := range p.tagTypes {
+		unc, ptr := "false", "false"
 		switch t.Underlying().(type) {
 		case *types.Slice, *types.Map, *types.Signature:
-			v = "true"
-		default:
-			v = "false"
+			unc = "true"
 		}
-		f.enc.addFact(q(fn), fmt.Sprintf("(assert (= (uncomparable %d) %s))", i+1, v))
+		switch t.Underlying().(type) {
+		case *types.Pointer, *types.Map, *types.Signature, *types.Chan:
+			ptr = "true"
+		}
+		fmt.Fprintf(&b, "(assert (= (uncomparable %d) %s))\n(assert (= (ptrlike %d) %s))\n", i+1, unc, i+1, ptr)
 	}
-	return res
+	return b.String()
 }
 
 func (f *Frame) doStore(x *ssa.Store) {
@@ -690,7 +695,7 @@ func intToFloat(e *Enc, v T, s Sort) T {
 	fn := e.declFun(name, []Sort{SInt}, s)
 	t := App(s, fn, v)
 	sym := e.define("i2f", t)
-	e.factAbout(sym, mk(SBool, "(and (not (fp.isNaN %[1]s)) (not (fp.isInfinite %[1]s)))", sym.S))
+	e.factAbout(sym, mk(SBool, "(and (not (fp.isNaN %[1]s)) (not (fp.isInfinite %[1]s)) (fp.eq (fp.roundToIntegral RTZ %[1]s) %[1]s))", sym.S))
 	return sym
 }
 
